@@ -392,19 +392,6 @@ Proof.
   apply five_shapes; [apply vcaps_no_other | |]; rewrite count_vcaps; (assumption || discriminate).
 Qed.
 
-(* ---------- attributes: processed = critical ones processed and the others processed ---------- *)
-Definition noncrit_processed (sc : scenario) (processed : list string) : bool :=
-  forallb (fun k => mem_str k processed) (map fst (filter (fun x => negb (snd x)) (s_other sc))).
-
-Lemma all_processed_split sc p : all_processed sc p = crit_processed sc p && noncrit_processed sc p.
-Proof.
-  unfold all_processed, crit_processed, noncrit_processed, other_keys, other_crit.
-  induction (s_other sc) as [|[k c] l IH]; [reflexivity|].
-  cbn [map filter fst snd forallb]. destruct c; cbn [negb map fst forallb]; rewrite IH;
-    destruct (mem_str k p); cbn; try reflexivity.
-  - destruct (forallb _ (map fst (filter snd l))); reflexivity.
-Qed.
-
 Lemma list_eqb_refl {A} (eqb : A -> A -> bool) : (forall x, eqb x x = true) -> forall l, list_eqb eqb l l = true.
 Proof. intros H l. induction l; cbn; [reflexivity|]. now rewrite H, IHl. Qed.
 
@@ -420,9 +407,9 @@ Ltac enum_all :=
   vm_compute; reflexivity.
 
 Ltac core_unfold :=
-  unfold verify_core, process_signature, process_plugin_response, native, any_critical_attribute,
+  unfold verify_core, process_signature, process_signature_gen, process_plugin_response, native, any_critical_attribute,
     spec_impl, should_fail_impl, spec_shape, plugin_or_attribute_problem, expected_results, enforced_failure, plugin_unusable,
-    plugin_exec_problem, nothing_processes, has_critical, noncrit_unprocessed,
+    plugin_exec_problem, nothing_processes, has_critical,
     authenticity_failed, identity_failed, revocation_failed, asked, caps_of, accepted.
 
 Lemma core_ok lvl sc : wf_sc sc = true -> spec_impl lvl sc (verify_core lvl sc) = true.
@@ -451,10 +438,9 @@ Proof.
     unfold shapes in SH. cbn [In] in SH.
     destruct SH as [E|[E|[E|[E|[E|[]]]]]]; rewrite <- E in *; [congruence| | | |].
     all: destruct (s_presp sc) as [|processed ti rev].
-    all: rewrite ?all_processed_split; unfold crit_processed.
+    all: unfold crit_processed.
     all: destruct (other_crit sc) as [|x l].
     all: try generalize (forallb (fun k : string => mem_str k processed) (x :: l)).
-    all: try generalize (noncrit_processed sc processed).
     all: intros; clear; enum_all.
 Qed.
 
